@@ -428,14 +428,23 @@ fn long_stream(n: usize, seed: u64) -> Result<u64, (String, String, serde_json::
     for &stride in &[0usize, 1, 2, 3, 5, 7, 8, 9, 16, 31, 64, 255, 256, 257, 1000, 4095, 8191, 8192, 8193, 20_000] {
         let mut rd = Reader::new(s.clone());
         let mut out = Vec::new();
-        if stride == 0 {
-            rd.feed_to(s.len(), &mut out);
-        } else {
-            let mut p = 0;
-            while p < s.len() {
-                p = (p + stride).min(s.len());
-                rd.feed_to(p, &mut out);
+        let fed = world::guarded(|| {
+            if stride == 0 {
+                rd.feed_to(s.len(), &mut out);
+            } else {
+                let mut p = 0;
+                while p < s.len() {
+                    p = (p + stride).min(s.len());
+                    rd.feed_to(p, &mut out);
+                }
             }
+        });
+        if let Err(pn) = fed {
+            return Err((
+                "panic/reader".into(),
+                format!("greeting + READY + {} messages fed {}: panic {}", n, if stride == 0 { "whole".to_string() } else { format!("{} bytes at a time", stride) }, pn),
+                json!({"engine":"E1","kind":"long-stream","n":n,"stride":stride,"seed":seed}),
+            ));
         }
         runs += 1;
         let got: Vec<Result<RItem, String>> = out.iter().map(|r| r.as_ref().map(|i| norm(&item_to_ref(i))).map_err(|e| e.clone())).collect();
